@@ -7,6 +7,7 @@ import (
 	"github.com/ClickHouse/ch-go/proto"
 
 	"verif/checks/seq/reg"
+	"verif/checks/seq/regtab"
 	"verif/refcol"
 	"verif/refwire"
 	"verif/vk"
@@ -36,7 +37,7 @@ func decodeAuto(b []byte, rev int, compressed bool) error {
 
 // C07 — a truncated block or message is never accepted.
 func C07(c *vk.Ctx) {
-	c.Rule("corpus = the C01 blocks (every registry composition x value sequences of length <= 1, length <= 2 for compositions of depth <= 1; thorough: length <= 2 everywhere) at revision 54460 and the C17 messages (base and every single-field deviation) at three revisions; for each encoding EVERY proper prefix is decoded through the typed target and, where the type is inferable, through Auto; the same blocks wrapped in None / LZ4 / ZSTD frames (one frame and two frames) are cut at every position of the framed stream. A prefix that the reference model parses as a complete message is not a truncation and is excluded. Oracle: decoding returns an error, never nil. distinct_nontrivial = (encoding, cut position, decoder) cases.")
+	c.Rule("corpus = the C01 blocks (every registry composition x value sequences of length <= 1, length <= 2 for compositions of depth <= 1; thorough: length <= 2 everywhere) at revision 54460 and the C17 messages (base and every single-field deviation) at three revisions; for each encoding EVERY proper prefix is decoded through the typed target and, where the type is inferable, through Auto; the same blocks wrapped in None / LZ4 / ZSTD frames (one frame and two frames) are cut at every position of the framed stream. A prefix that the reference model parses as a complete message is not a truncation and is excluded. Large values (a string of 1 MiB + 11 bytes; thorough also 1 MiB, 2 MiB + 5, 128 KiB + 3) as the only, first, last, array-element, nullable, dictionary and map value of a block (plain and as a sequence of 1 MiB LZ4 frames) and as the last field of TableColumns / Exception / ClientData: cut at every byte of the first and last 80 bytes and around the value's start, within +-3 of every 64 KiB multiple from the stream start and from the value start, and every 4099th byte (a stated subset: cutting 1 MiB everywhere is 10^12 byte copies). Oracle: decoding returns an error, never nil. distinct_nontrivial = (encoding, cut position, decoder) cases.")
 	quick := c.Quick()
 	rev := 54460
 	for ei, e := range regEntries(c) {
@@ -185,5 +186,187 @@ func C07(c *vk.Ctx) {
 			}
 		}
 	}
+	c07Large(c)
 	c.Sample(map[string]any{"encoding": "block with one column Array(LowCardinality(String)) holding [[\"a\"]]", "cuts": "every k in 0..len-1, plain; every k of the LZ4-framed stream (inside checksum, header, payload)", "oracle": "DecodeBlock returns an error"})
+}
+
+// c07Large: values whose length crosses the size steps the readers allocate by (1 MiB
+// chunks for strings whose length came from the wire) and the 128 KiB read buffer. The
+// stream is too long to cut everywhere; the cut positions are every byte of the first and
+// last 80 bytes, every byte within +-3 of each multiple of 64 KiB counted from the start
+// of the stream and from the start of the big value, and a stride of 4099 bytes in between.
+func c07Large(c *vk.Ctx) {
+	rev := 54460
+	sizes := []int{1<<20 + 11}
+	if !c.Quick() {
+		sizes = append(sizes, 1<<20, 2<<20+5, 1<<17+3)
+	}
+	big := func(n int) []byte {
+		b := make([]byte, n)
+		for i := range b {
+			b[i] = byte('a' + i%23)
+		}
+		return b
+	}
+	cuts := func(total, valStart int) []int {
+		seen := map[int]bool{}
+		var out []int
+		add := func(k int) {
+			if k >= 0 && k < total && !seen[k] {
+				seen[k] = true
+				out = append(out, k)
+			}
+		}
+		for k := 0; k < 80; k++ {
+			add(k)
+			add(total - 1 - k)
+			add(valStart - 40 + k)
+		}
+		for m := 0; m <= total; m += 1 << 16 {
+			for d := -3; d <= 3; d++ {
+				add(m + d)
+				add(valStart + m + d)
+			}
+		}
+		for k := 0; k < total; k += 4099 {
+			add(k)
+		}
+		return out
+	}
+	type lcase struct {
+		typ  string
+		vals func(b []byte) []any
+	}
+	small := []byte("s")
+	cases := []lcase{
+		{"String", func(b []byte) []any { return []any{b} }},
+		{"String", func(b []byte) []any { return []any{small, b} }},
+		{"String", func(b []byte) []any { return []any{b, small} }},
+		{"Array(String)", func(b []byte) []any { return []any{[]any{small, b}} }},
+		{"Nullable(String)", func(b []byte) []any { return []any{nil, b} }},
+		{"LowCardinality(String)", func(b []byte) []any { return []any{small, b} }},
+		{"Map(String, String)", func(b []byte) []any { return []any{[]refcol.KV{{K: small, V: b}}} }},
+	}
+	n := int64(0)
+	for ci, lc := range cases {
+		for _, sz := range sizes {
+			if c.Only == "" && !c.Mine(n) {
+				n++
+				continue
+			}
+			n++
+			e, ok := regtab.ByLabel(lc.typ)
+			if !ok {
+				panic("C07: no registry entry " + lc.typ)
+			}
+			t := refcol.MustParse(lc.typ)
+			b := big(sz)
+			vals := lc.vals(b)
+			var w refwire.W
+			refcol.EncodeBlockBody(&w, rev, refwire.BlockInfo{BucketNum: -1}, len(vals), []refcol.BlockCol{{Name: "col", Type: t, Vals: vals}})
+			stream := w.B
+			if rows, err := decodeTyped(e, stream, rev, false); err != nil || rows != len(vals) {
+				c.Violation("C07/large/complete-block-rejected/"+lc.typ, fmt.Sprintf("large/%s#%d/size=%d/full", lc.typ, ci, sz), fmt.Sprintf("the complete block does not decode: rows=%d err=%v", rows, err), nil)
+				continue
+			}
+			valStart := bytes.Index(stream, b[:64])
+			for _, variant := range []string{"plain", "lz4"} {
+				st := stream
+				if variant == "lz4" {
+					// the server's compressed blocks hold at most 1 MiB of data each
+					st = nil
+					for off := 0; off < len(stream); off += 1 << 20 {
+						st = append(st, refwire.Compress(refwire.MethodLZ4, stream[off:min(off+1<<20, len(stream))])...)
+					}
+				}
+				for _, k := range cuts(len(st), valStart) {
+					id := fmt.Sprintf("large/%s#%d/size=%d/%s/cut=%d", lc.typ, ci, sz, variant, k)
+					if c.Only != "" && c.Only != id {
+						continue
+					}
+					c.Current(id)
+					var rows int
+					var derr error
+					msg, fn := vk.Recover(func() { rows, derr = decodeTyped(e, st[:k], rev, variant != "plain") })
+					if msg != "" {
+						c.Violation("C07/panic/"+fn, id, msg, nil)
+					} else if derr == nil {
+						c.Violation("C07/truncated-block-accepted/typed/large-"+variant, id, fmt.Sprintf("%d of %d bytes decode without error (%d rows reported)", k, len(st), rows), nil)
+					}
+					msg, fn = vk.Recover(func() { derr = decodeAuto(st[:k], rev, variant != "plain") })
+					if msg != "" {
+						c.Violation("C07/panic/"+fn, id, msg, nil)
+					} else if derr == nil {
+						c.Violation("C07/truncated-block-accepted/auto/large-"+variant, id, fmt.Sprintf("%d of %d bytes decode without error through Auto", k, len(st)), nil)
+					}
+					c.Eval("large values", 2)
+					c.DistinctN(2)
+				}
+			}
+		}
+	}
+	// messages whose last field is a big string
+	for _, sz := range sizes {
+		if c.Only == "" && !c.Mine(n) {
+			n++
+			continue
+		}
+		n++
+		b := string(big(sz))
+		type lm struct {
+			name string
+			enc  []byte
+			dec  func(p []byte) error
+		}
+		var msgs []lm
+		{
+			var buf proto.Buffer
+			proto.TableColumns{First: "t", Second: b}.EncodeAware(&buf, rev)
+			msgs = append(msgs, lm{"TableColumns", buf.Buf[1:], func(p []byte) error {
+				var d proto.TableColumns
+				return d.DecodeAware(proto.NewReader(bytes.NewReader(p)), rev)
+			}})
+		}
+		{
+			var buf proto.Buffer
+			(&proto.Exception{Code: 60, Name: "n", Message: "m", Stack: b, Nested: false}).EncodeAware(&buf, rev)
+			msgs = append(msgs, lm{"Exception", buf.Buf, func(p []byte) error {
+				var d proto.Exception
+				return d.DecodeAware(proto.NewReader(bytes.NewReader(p)), rev)
+			}})
+		}
+		{
+			var buf proto.Buffer
+			proto.ClientData{TableName: b}.EncodeAware(&buf, rev)
+			msgs = append(msgs, lm{"ClientData", buf.Buf, func(p []byte) error {
+				var d proto.ClientData
+				return d.DecodeAware(proto.NewReader(bytes.NewReader(p)), rev)
+			}})
+		}
+		for _, m := range msgs {
+			if err := m.dec(m.enc); err != nil {
+				c.Violation("C07/large/complete-message-rejected/"+m.name, fmt.Sprintf("large/msg/%s/size=%d/full", m.name, sz), err.Error(), nil)
+				continue
+			}
+			for _, k := range cuts(len(m.enc), bytes.Index(m.enc, []byte(b[:64]))) {
+				id := fmt.Sprintf("large/msg/%s/size=%d/cut=%d", m.name, sz, k)
+				if c.Only != "" && c.Only != id {
+					continue
+				}
+				if m.name == "Exception" && k == len(m.enc)-1 {
+					// only the trailing "nested" flag is missing: still a truncation, decoded below
+				}
+				c.Current(id)
+				var derr error
+				msg, fn := vk.Recover(func() { derr = m.dec(m.enc[:k]) })
+				if msg != "" {
+					c.Violation("C07/panic/"+fn, id, msg, nil)
+				} else if derr == nil {
+					c.Violation("C07/truncated-message-accepted/large-"+m.name, id, fmt.Sprintf("%d of %d bytes of a %s decode without error", k, len(m.enc), m.name), nil)
+				}
+				c.Eval("large values", 1)
+				c.DistinctN(1)
+			}
+		}
+	}
 }
